@@ -889,6 +889,10 @@ impl DbInner {
 
 		if let Some(mut commit) = commit {
 			if commit.changeset.check_for_deferral {
+				// A commit with a tree dereference is at the head; the reader locks are not
+				// inspected yet.
+				#[cfg(pdb_verif)]
+				crate::verif::yield_point("process_commits.before_deferral_check");
 				let mut defer = false;
 				'outer: for (col, key_values) in commit.changeset.indexed.iter() {
 					for change in &key_values.node_changes {
@@ -930,6 +934,9 @@ impl DbInner {
 					}
 				}
 				if defer {
+					// The commit goes back to the queue; nothing was planned.
+					#[cfg(pdb_verif)]
+					crate::verif::yield_point("process_commits.deferred");
 					let queue = self.commit_queue.lock();
 					let new_id = if queue.commits.len() > 0 {
 						// Generate a new id
